@@ -91,6 +91,30 @@ var c07TimeFamilies = []timeFamily{
 		b.WriteString(famTail)
 		return b.Bytes()
 	}},
+	// one feature with n values under ONE qualifier name (a gene with thousands of /db_xref): linear on
+	// the unchanged tree — Props.Add appends to the row in place; no finding (seeded change W16-2: Add
+	// copying the row for every value)
+	{"repeated-qualifier-values", "", 8000, func(n int) []byte {
+		var b bytes.Buffer
+		b.WriteString(famHead + famFeat + "     gene            1..2\n")
+		ind := strings.Repeat(" ", 21)
+		for i := 0; i < n; i++ {
+			b.WriteString(ind + "/db_xref=\"DB:" + strconv.Itoa(i) + "\"\n")
+		}
+		b.WriteString(famTail)
+		return b.Bytes()
+	}},
+	// n features with the same key, location and qualifiers (a table of duplicates): linear today
+	{"duplicate-features", "", 4000, func(n int) []byte {
+		var b bytes.Buffer
+		b.WriteString(famHead + famFeat)
+		ind := strings.Repeat(" ", 21)
+		for i := 0; i < n; i++ {
+			b.WriteString("     gene            1..2\n" + ind + "/gene=\"a\"\n")
+		}
+		b.WriteString(famTail)
+		return b.Bytes()
+	}},
 }
 
 func c07Family(name string) (timeFamily, bool) {
